@@ -29,3 +29,7 @@ pub use core::compact::{compact, uncompact};
 // Types
 pub use coordinate_systems::{Degrees, LonLat, Radians};
 pub use core::utils::A5Cell;
+
+// Verification-only stand-in for std's HashSet (see /verif); compiled only under the guard
+#[cfg(felixpalmer_a5_rs_verif)]
+pub mod verif_set;
